@@ -5,12 +5,38 @@ import json, os, subprocess
 ROOT = os.path.dirname(os.path.abspath(__file__))
 
 # id -> (technique, level text, level_note, design_ref)
+L1_NOTE = "Seam L1: the real leptos_i18n_parser::parse_locales run on project directories generated from the AST (never parsed back). Trusted: the tree evaluator + reference semantics in vmodel, ICU4X CLDR data. Further seams (generated crates, run time) appear in evidence.coverage.engines when they ran."
+
 CLAIMED = {
     "C01": (
         "bounded exhaustive enumeration of value forests executed on the real parser (L1) and through generated crates (L3), compared with a reference renderer",
         "Every value forest over Text/Var/Comp up to the node bound, every whitespace combination inside tags and variables, every payload pair next to every delimiter, all literal-type pairs, in three containers (top level, nested subkeys, namespaces) is parsed by the real parse_locales and its tree evaluated the way generated code reads it; the result must equal the reference rendering of the AST the files were generated from.",
-        "Trusted: the 60-line tree evaluator and the reference renderer (vmodel). Text alphabet excludes lone '<', '{{', '$t(' (no documented escape). L3 half (generated crates through td_string!/td_display!/td!) listed in evidence.engines when run.",
+        L1_NOTE + " Text alphabet excludes lone '<', '{{', '$t(' (no documented escape).",
         "DESIGN.md §3 C01",
+    ),
+    "C03": (
+        "exhaustive enumeration of every inherits map x presence pattern, executed on the real loader, compared with a chain-walk reference",
+        "For 3- and 4-locale sets, every map from non-default locales to {none, any locale incl. itself and the default} and, per map, one key per (value kind x defined/null/absent pattern) plus every subkey-group state combination: the loader's DefaultedLocales::compute() and the rendered (self-identifying) text of every key in every locale must equal the chain walk of the statement.",
+        L1_NOTE,
+        "DESIGN.md §3 C03",
+    ),
+    "C04": (
+        "exhaustive enumeration of range declarations x counts (all 256 for i8/u8) on the real loader against an independent spec parser + Rust comparison semantics",
+        "Every 1- and 2-branch (thorough: 3-branch) declaration over the spec alphabet for i8/u8 is evaluated for all 256 counts from the parsed Range<T> structures and selected at parse time through $t(r,{count:n}); wider integer types and floats are covered on boundary neighbourhoods and extremes; declarations the statement rejects must be errors, a literal count no branch contains must be an error - never a panic or a wrong branch.",
+        L1_NOTE + " Rust's FromStr/PartialOrd define what bounds mean. Empty/inverted ranges may be rejected or accepted.",
+        "DESIGN.md §3 C04",
+    ),
+    "C05": (
+        "exhaustive enumeration of plural-form subsets x rule type x locales x counts 0..=200 on the real loader against direct ICU4X calls",
+        "All 31 subsets of {zero..many}+other, cardinal and ordinal, for a locale set spanning the CLDR category patterns: merged trees evaluated for counts 0..=200 and large operands, parse-time selection for each such count and decimal operands, UnusedForm diagnostics as an exact multiset, and the error side (cardinal+ordinal under one key, collision with a plain key, forms without _other).",
+        L1_NOTE,
+        "DESIGN.md §3 C05",
+    ),
+    "C06": (
+        "exhaustive enumeration of reference chains (every name assignment), small digraphs incl. cycles, locale and namespace variants on the real loader against a pure-substitution reference",
+        "Every chain of depth <= 2 (thorough 3) over 15 referencing forms x 7 target kinds in every assignment of key names, all digraphs on <= 3 nodes, 4-locale projects with explicit-null and inherited targets, two-namespace layouts: accepted projects must render exactly the substitution semantics in every locale, rejected ones must give an Err naming a key.",
+        L1_NOTE + " A target absent from the same locale's file cannot be referenced (documented) - expected Err.",
+        "DESIGN.md §3 C06",
     ),
 }
 
